@@ -68,10 +68,10 @@ theorem ids_formula_reissuance (i : TxIn) (h : i.assetIssuance.nonce ≠ zero32)
 
 /-- `pset::Input::issuance_ids`: same layout, from the optional fields (absent = zero), the index with
     the flag bits removed, "blinded" = a value commitment is present -/
-theorem ids_formula_pset (p : PsetInput) :
+theorem ids_formula_pset (p : IssPsetInput) :
     p.issuanceIds H =
       let e := if p.issuanceBlindingNonce.getD zero32 = zero32
-        then H.comb (H.sha256d (p.previousTxid ++ encLe 4 (PsetInput.plainIndex p.previousOutputIndex)))
+        then H.comb (H.sha256d (p.previousTxid ++ encLe 4 (IssPsetInput.plainIndex p.previousOutputIndex)))
                     (p.issuanceAssetEntropy.getD zero32)
         else p.issuanceAssetEntropy.getD zero32
       some (H.comb e (List.replicate 32 0),
@@ -80,7 +80,7 @@ theorem ids_formula_pset (p : PsetInput) :
   rfl
 
 /-- none of the id computations panics -/
-theorem ids_no_panic (i : TxIn) (p : PsetInput) : i.issuanceIds H ≠ none ∧ p.issuanceIds H ≠ none := by
+theorem ids_no_panic (i : TxIn) (p : IssPsetInput) : i.issuanceIds H ≠ none ∧ p.issuanceIds H ≠ none := by
   rw [EV.Proofs.Issuance.txin_ids_eq, EV.Proofs.Issuance.pset_ids_eq]; simp
 
 /-! ## 2. the three representations agree -/
@@ -101,8 +101,8 @@ def Canonical (t : TxIn) : Prop :=
     of the transaction extracted from that PSET (`extract_tx`) yield the same (asset id, token id):
     pegin or not, new issuance or reissuance, explicit / confidential / null amounts, any txid. -/
 theorem ids_agree (t : TxIn) (h : Canonical t) :
-    (PsetInput.fromTxin t).issuanceIds H = t.issuanceIds H ∧
-    (PsetInput.extractIn (PsetInput.fromTxin t)).issuanceIds H = t.issuanceIds H :=
+    (IssPsetInput.fromTxin t).issuanceIds H = t.issuanceIds H ∧
+    (IssPsetInput.extractIn (IssPsetInput.fromTxin t)).issuanceIds H = t.issuanceIds H :=
   ⟨EV.Proofs.Issuance.ids_agree_pset H t h.1 h.2, EV.Proofs.Issuance.ids_agree_extract H t h.1 h.2⟩
 
 /-- every well-formed in-memory input (`wfBody` of C01) is canonical … -/
@@ -114,30 +114,30 @@ theorem canonical_of_decoded (bs rest : Bytes) (t : TxIn) (h : TxIn.dec P bs = .
   canonical_of_wf P t ((EV.Proofs.CodecTx.txIn_sound P bs t rest h).2.1)
 
 theorem ids_agree_decoded (bs rest : Bytes) (t : TxIn) (h : TxIn.dec P bs = .ok (t, rest)) :
-    (PsetInput.fromTxin t).issuanceIds H = t.issuanceIds H ∧
-    (PsetInput.extractIn (PsetInput.fromTxin t)).issuanceIds H = t.issuanceIds H :=
+    (IssPsetInput.fromTxin t).issuanceIds H = t.issuanceIds H ∧
+    (IssPsetInput.extractIn (IssPsetInput.fromTxin t)).issuanceIds H = t.issuanceIds H :=
   ids_agree H t (canonical_of_decoded P bs rest t h)
 
 /-- what is behind it: outpoint and issuance survive TxIn → PSET input → extracted TxIn (the flags
     folded into the index by `from_txin` are stripped again), and so does the pegin flag -/
 theorem extract_keeps_outpoint_and_issuance (t : TxIn) (h : Canonical t) :
-    (PsetInput.extractIn (PsetInput.fromTxin t)).previousOutput = t.previousOutput ∧
-    (PsetInput.extractIn (PsetInput.fromTxin t)).assetIssuance = t.assetIssuance ∧
-    (PsetInput.fromTxin t).assetIssuance = t.assetIssuance :=
+    (IssPsetInput.extractIn (IssPsetInput.fromTxin t)).previousOutput = t.previousOutput ∧
+    (IssPsetInput.extractIn (IssPsetInput.fromTxin t)).assetIssuance = t.assetIssuance ∧
+    (IssPsetInput.fromTxin t).assetIssuance = t.assetIssuance :=
   let ⟨a, b⟩ := EV.Proofs.Issuance.extract_fromTxin_core t h.1 h.2
   ⟨a, b, EV.Proofs.Issuance.assetIssuance_fromTxin t h.2⟩
 
 theorem extract_keeps_pegin (t : TxIn)
     (h : (t.previousOutput.vout < 2^30 ∧ ¬ (t.previousOutput.vout = 2^30 - 1 ∧ t.isPegin = true ∧ t.hasIssuance = true)) ∨
          (t.previousOutput.vout = 0xffffffff ∧ t.isPegin = false)) :
-    (PsetInput.extractIn (PsetInput.fromTxin t)).isPegin = t.isPegin :=
+    (IssPsetInput.extractIn (IssPsetInput.fromTxin t)).isPegin = t.isPegin :=
   EV.Proofs.Issuance.extract_fromTxin_isPegin t h
 
 /-- The excluded index, exactly: for index 2^30-1 with pegin *and* issuance the PSET input (and the
     extracted input) compute the ids of the outpoint with index 0xffffffff instead. -/
 theorem ids_at_excluded_index (t : TxIn) (hv : t.previousOutput.vout = 2^30 - 1) (hp : t.isPegin = true)
     (hq : t.hasIssuance = true) :
-    (PsetInput.fromTxin t).issuanceIds H =
+    (IssPsetInput.fromTxin t).issuanceIds H =
       ({ t with previousOutput := ⟨t.previousOutput.txid, 0xffffffff⟩ } : TxIn).issuanceIds H := by
   have hi : EV.Proofs.Issuance.IssuanceOk t := Or.inl hq
   rw [EV.Proofs.Issuance.pset_ids_eq, EV.Proofs.Issuance.txin_ids_eq, EV.Proofs.Issuance.fromTxin_nonce t hi,
@@ -150,7 +150,7 @@ theorem ids_at_excluded_index (t : TxIn) (hv : t.previousOutput.vout = 2^30 - 1)
     input never receives them: it computes the ids of the same input with the default issuance. -/
 theorem ids_without_issuance (t : TxIn) (hq : t.hasIssuance = false)
     (hv : t.previousOutput.vout < 2^30 ∨ t.previousOutput.vout = 0xffffffff) :
-    (PsetInput.fromTxin t).issuanceIds H = ({ t with assetIssuance := AssetIssuance.null } : TxIn).issuanceIds H := by
+    (IssPsetInput.fromTxin t).issuanceIds H = ({ t with assetIssuance := AssetIssuance.null } : TxIn).issuanceIds H := by
   rw [EV.Proofs.Issuance.fromTxin_no_issuance t hq]
   apply EV.Proofs.Issuance.ids_agree_pset
   · rcases hv with hv | hv
@@ -162,10 +162,10 @@ theorem ids_without_issuance (t : TxIn) (hq : t.hasIssuance = false)
 
 /-- the PSET ids depend on the stored index only through the plain index: setting or clearing the
     pegin (bit 30) and issuance (bit 31) flags of a real index changes nothing -/
-theorem ids_flag_bits_irrelevant (p : PsetInput) (idx : Nat) (pegin iss : Bool) (hidx : idx < 2^30)
+theorem ids_flag_bits_irrelevant (p : IssPsetInput) (idx : Nat) (pegin iss : Bool) (hidx : idx < 2^30)
     (hrep : ¬ (idx = 2^30 - 1 ∧ pegin = true ∧ iss = true)) :
-    ({ p with previousOutputIndex := (idx ||| (if pegin then 2^30 else 0)) ||| (if iss then 2^31 else 0) } : PsetInput).issuanceIds H
-      = ({ p with previousOutputIndex := idx } : PsetInput).issuanceIds H := by
+    ({ p with previousOutputIndex := (idx ||| (if pegin then 2^30 else 0)) ||| (if iss then 2^31 else 0) } : IssPsetInput).issuanceIds H
+      = ({ p with previousOutputIndex := idx } : IssPsetInput).issuanceIds H := by
   rw [EV.Proofs.Issuance.pset_ids_eq, EV.Proofs.Issuance.pset_ids_eq]
   have h1 := EV.Proofs.Issuance.plainIndex_word idx pegin iss (Or.inl ⟨hidx, hrep⟩)
   have h2 := EV.Proofs.Issuance.plainIndex_word idx false false (Or.inl ⟨hidx, by simp⟩)
